@@ -121,7 +121,7 @@ func c19Err(c *Ctx) {
 	r := c.R
 	targets := map[*ssa.Function]bool{}
 	for _, t := range [][3]string{{"pkg/board/fen", "", "Decode"}, {"pkg/board", "", "NewPosition"}, {"pkg/board", "", "ParseMove"}, {"pkg/board", "", "ParseSquare"}, {"pkg/board", "", "ParseSquareStr"}, {"pkg/engine", "", "NewBook"}, {"pkg/board/fen", "", "NewBoard"}} {
-		if f := c.P.Func(t[0], t[1], t[2]); f != nil {
+		if f := c.find(t[0], t[1], t[2]); f != nil {
 			targets[f] = true
 		} else {
 			r.Undecided("R19-err", "anchor:"+t[0]+"."+t[2], "", "", "not found")
@@ -595,7 +595,7 @@ func c19PanicSite(c *Ctx, rule, cons string, fn *ssa.Function, pn *ssa.Panic, re
 	// which parameter does the panic depend on? the one the enclosing switch tests
 	argIdx := -1
 	for i, p := range fn.Params {
-		if n := namedOf(p.Type()); n != nil && n.Obj().Name() == "Piece" {
+		if n := namedOf(p.Type()); n != nil && core.ObjName(n.Obj()) == "Piece" {
 			argIdx = i
 		}
 	}
@@ -790,7 +790,7 @@ func c19Move(c *Ctx) {
 
 func c19ParseMove(c *Ctx, parse *ssa.Function) {
 	r := c.R
-	psq := c.P.Func("pkg/board", "", "ParseSquare")
+	psq := c.find("pkg/board", "", "ParseSquare")
 	in := newInterp(c.P)
 	in.Hook = func(in *absint.Interp, st *absint.State, site ssa.CallInstruction, callee *ssa.Function, args []absint.Value, k func(*absint.State, absint.Value)) bool {
 		if callee != nil && callee == psq {
